@@ -164,8 +164,31 @@ fn incremental(p: &P) -> Fingerprint {
     f
 }
 
+/// fewer distinct points than clusters: the initialisers' fallback branches (all remaining
+/// sampling weights zero) are taken
+fn few_distinct(init: KMeansInit<f64>, p: &P) -> Fingerprint {
+    let n = p.pick(12, 40, 90);
+    let x = Array2::from_shape_fn((n, 2), |(i, j)| if i % 2 == 0 { 1.0 + j as f64 } else { -3.0 + 2.0 * j as f64 });
+    let ds = DatasetBase::from(x.clone());
+    let mut f = Fingerprint::new();
+    for k in [3usize, 4] {
+        match KMeans::params_with(k, Xoshiro256Plus::seed_from_u64(p.seed), L2Dist).init_method(init.clone()).n_runs(2).max_n_iterations(10).fit(&ds) {
+            Ok(m) => {
+                f.arr(&format!("k{k}_centroids"), m.centroids());
+                f.arr(&format!("k{k}_count"), m.cluster_count());
+                f.one(&format!("k{k}_inertia"), m.inertia());
+                f.arr(&format!("k{k}_predict"), &m.predict(&x));
+            }
+            Err(e) => f.err(&format!("k{k}_fit"), &e),
+        }
+    }
+    f
+}
+
 pub fn register(r: &mut Registry) {
     const K: &str = "linfa-clustering";
+    r.scenario("kmeans_few_distinct_pp", K, Kind::Claim, true, |p| few_distinct(KMeansInit::KMeansPlusPlus, p));
+    r.scenario("kmeans_few_distinct_random", K, Kind::Claim, true, |p| few_distinct(KMeansInit::Random, p));
     for (iname, l1, runs) in [("random", false, 1), ("random", true, 3), ("pp", false, 1), ("pp", false, 3), ("pp", true, 1), ("pre", false, 1), ("pre", true, 1)] {
         let name = format!("kmeans_{iname}_{}_r{runs}", if l1 { "l1" } else { "l2" });
         r.scenario(&name, K, Kind::Claim, true, move |p| {
